@@ -30,7 +30,7 @@ def _strategy(tier):
     return sim_cases(builtin=True, steps=(1, 20) if big else (1, 8), agents_per_group=(1, 5))
 
 
-PARTS = {"sim": {"check": check_case, "strategy": _strategy, "budget": {"quick": 1500, "thorough": 40000}}}
+PARTS = {"sim": {"check": check_case, "strategy": _strategy, "budget": {"quick": 3000, "thorough": 40000}}}
 
 
 def vacuity(merged, tier):
